@@ -57,7 +57,15 @@ def run(ctx):
             ctx.check(e.args[0] == E and len(e.conds()) == 1, "FORM", f"{GM} / FORM / short interface appended whole", where,
                       "interfaces with len <= ne are unchanged", f"a short interface is replaced by {T.show(T.alpha(e.args[0]))[:120]} under {[T.show(c) for c in e.conds()]}")
         else:
-            raise AnalysisError(f"{where}: append to the resampled list under an unrecognised condition {[T.show(c)[:80] for c in e.conds()]}")
+            # a different threshold between len(E) and ne is positively identified when the condition is a comparison of polynomials over them
+            thr = [c for c in e.conds() if c[0] == "cmp" and c[1] in ("lt", "le") and
+                   {repr(x) for x in T.subterms(c) if x[0] in ("sym", "call") and x not in (ne,) and not (x[0] == "call" and x[1] == "len" and x[2] == (E,))} <= {repr(E)}
+                   and any(x == ne for x in T.subterms(c)) and any(x == T.call("len", (E,)) for x in T.subterms(c))]
+            if thr:
+                ctx.violation("FORM", f"{GM} / FORM / an interface is resampled exactly when it has more than ne points", where,
+                              f"the branch is taken under {T.show(T.alpha(thr[0]))} instead of len(E) > ne (resp. its negation): interfaces of some lengths keep more than ne+1 points or lose points they should keep")
+            else:
+                raise AnalysisError(f"{where}: append to the resampled list under an unrecognised condition {[T.show(c)[:80] for c in e.conds()]}")
     ctx.count("FORM", "long-interface sampling sites", n_long, 1)
     ctx.count("FORM", "short-interface sites", n_short, 1)
     loop_src = {e.loops()[0][2] for e in apps}
@@ -133,6 +141,27 @@ def run(ctx):
     ok = all(any(x == T.idx(vs, T.idx(p, T.num(k))) for x in T.subterms(v)) for k, v in ((0, v0), (1, v1)))
     ctx.check(ok, "ALIGN", f"{JV} / ALIGN / merged vertices are the two ends handed in", ctx.where(j), "v0 = vertices[e[0]], v1 = vertices[e[1]] (or their replacements)",
               "the merged vertices are not the two ends of the interface handed in")
+    ctx.clause("the contracted vertex gets an id that no surviving vertex uses")
+    gu = repo.func("forsys.virtual_edges.get_unused_id")
+    ctx.touch(gu)
+    sgu = sym.summarize(repo, gu.qualname)
+    dpar = T.sym(gu.params[0])
+    ret = sgu.ret()
+    fresh = False
+    if ret[0] == "loopres":
+        # the returned candidate is re-tested against the dictionary until it is absent
+        cand = ("lc", ret[1], ret[2])
+        for e in sgu.events:
+            for g in e.guard:
+                if g[0] == "while" and g[1] == ret[2]:
+                    tests = T.conjuncts(g[2])
+                    fresh = any(t_ in (T.cmp("NotEq", T.call(("m", "get"), (dpar, cand)), T.NONE), ("in", cand, dpar), ("in", cand, T.call(("m", "keys"), (dpar,)))) for t_ in tests)
+    ctx.check(fresh, "KEY", f"{gu.qualname} / KEY / returned id re-tested until absent from the dictionary", ctx.where(gu),
+              "while dictionary.get(new_id) is not None: next candidate", "get_unused_id returns a candidate without checking that no existing vertex uses it (ids are not contiguous after resampling)")
+    newid = news[0].key
+    ctx.check(newid == T.call(gu.qualname, (T.sym(j.params[1]),)), "KEY", f"{JV} / KEY / merged vertex stored under get_unused_id(vertices)", ctx.where(j, news[0].node),
+              "fresh id of the vertex dictionary itself", f"the merged vertex is stored under {T.show(T.alpha(newid))[:80]}")
+
     calls = [e for e in s.calls() if e.target == JV]
     okc = len(calls) == 1 and ("opt", "replace_short_edges", T.TRUE) in calls[0].conds()
     ctx.check(okc, "GUARD", f"{GM} / GUARD / contraction only when replace_short_edges (default True)", ctx.where(f),
@@ -147,6 +176,8 @@ def _attr(summary, base, name):
 
 _V = "forsys/virtual_edges.py"
 PINNED = [
+    ("resampling threshold off by two", _V, "        if len(e) > ne:\n            if not e in alreadySeen", "        if len(e) - 2 > ne:\n            if not e in alreadySeen"),
+    ("get_unused_id without the collision loop", _V, "    new_id = len(dictionary)\n    i = 0\n    while dictionary.get(new_id) != None:\n        new_id = len(dictionary) + i\n        i += 1\n    return new_id", "    return len(dictionary)"),
     ("F4 reintroduced: abs() around the midpoint", _V, "x_cm = (v0.x + v1.x) / 2", "x_cm = abs(v0.x + v1.x) / 2"),
     ("midpoint of y uses v0 twice", _V, "y_cm = (v0.y + v1.y) / 2", "y_cm = (v0.y + v0.y) / 2"),
     ("last point only appended for even lengths", _V, "                nEdge.append(e[-1])\n", "                if len(e) % 2 == 0:\n                    nEdge.append(e[-1])\n"),
